@@ -6,7 +6,7 @@ COMMON_TRUSTED = [
     "Lean compiler/runtime for the executable instantiations of the models (Float, Float32, Rat, UInt64, List, String)",
 ]
 
-HOOK_COMMITS = ["f19adfe", "71427de", "9be2068", "df621b3"]
+HOOK_COMMITS = ["f19adfe", "71427de", "9be2068", "df621b3", "8e0d3b7"]
 
 NOT_APPLICABLE = {
     "C06": "end-to-end statistical convergence claim about the empirical law of rand/rand_distr streams: no executable model tied to the code by a "
